@@ -683,6 +683,7 @@ func (s *IncSolver) CheckWithModel(t *Term, vars []*Term) (string, map[string]MV
 	s.send(fmt.Sprintf("(assert %s)\n", t.ref()))
 	r := s.Check()
 	var model map[string]MVal
+	_ = model
 	if r == "sat" && len(vars) > 0 && !s.dead {
 		var sb strings.Builder
 		var vs []*Term
